@@ -25,7 +25,7 @@
 //!   ok runs=<n> steps=<s> events=<e> pct_starved=<k> [|| <run 0> ## <run 1> ...]
 //!   FAIL <clause> run=<i> seed=<s> :: <detail> :: choices=<c,c,...> [|| <failing run>]
 //! where <run k> = `res=<t0 results>/<t1 results>/.. ;; ev ; ev ; ...` (with `trace`).
-//! clauses: C10:guard-coexist C10:lost-update C10:deadlock C10:step-limit C10:panic C10:try-blocked
+//! clauses: C10:guard-coexist C10:lost-update C10:deadlock C10:step-limit C10:panic C10:try-blocked C10:writer-gate
 use fibre::sync::{HybridMutex, HybridRwLock};
 use fibre::verif::{Kind, Parker};
 use sched::{format_rec, run, Namer, Outcome, Policy};
@@ -413,6 +413,18 @@ fn judge(sc: &Scenario, r: &OneRun) -> Option<(String, String)> {
   }
   if r.counter != r.wsections {
     return Some(("C10:lost-update".into(), format!("protected counter = {} after {} exclusive critical sections", r.counter, r.wsections)));
+  }
+  // writer gate (safety core of "a queued writer is not starved by a stream of readers"), judged on
+  // the implementation's own events: no successful CAS adds a reader (new = old + READER_UNIT) to a
+  // state word that has WRITER_PENDING (2) or WRITE_LOCKED (1) set
+  if sc.kind == "rwlock" {
+    for rec in &r.trace {
+      let ev = &rec.ev;
+      let on_state = ev.var.map(|v| v.file.ends_with("rwlock.rs")).unwrap_or(false);
+      if on_state && matches!(ev.kind, Kind::Cas | Kind::CasWeak) && ev.ok && ev.b == ev.a.wrapping_add(8) && ev.a & 3 != 0 {
+        return Some(("C10:writer-gate".into(), format!("thread {} acquired a read guard by CAS {} -> {} although WRITER_PENDING/WRITE_LOCKED was set (a queued writer can be starved)", rec.tid, ev.a, ev.b)));
+      }
+    }
   }
   // try_ variants never block: a thread whose whole program is try_ ops takes no park/yield step
   // (the release of a guard obtained by try_ may spin briefly on the wait-list spinlock in
